@@ -284,6 +284,20 @@ def eval3(expr, env):
             return None
     if isinstance(expr, ast.Compare) and len(expr.ops) == 1:
         left, op, right = expr.left, expr.ops[0], expr.comparators[0]
+        # the complementary comparison (a == b / a != b, in / not in, is / is not) known in env decides this one too
+        _COMP = {ast.Eq: ast.NotEq, ast.NotEq: ast.Eq, ast.In: ast.NotIn, ast.NotIn: ast.In, ast.Is: ast.IsNot, ast.IsNot: ast.Is}
+        if type(op) in _COMP:
+            ck = norm(ast.Compare(left=left, ops=[_COMP[type(op)]()], comparators=[right]))
+            if ck in env and isinstance(env[ck], bool):
+                return not env[ck]
+            if isinstance(op, (ast.Eq, ast.NotEq)):
+                # symmetric operands
+                sk = norm(ast.Compare(left=right, ops=[type(op)()], comparators=[left]))
+                if sk in env and isinstance(env[sk], bool):
+                    return env[sk]
+                sck = norm(ast.Compare(left=right, ops=[_COMP[type(op)]()], comparators=[left]))
+                if sck in env and isinstance(env[sck], bool):
+                    return not env[sck]
         lk = norm(left)
         if isinstance(right, ast.Constant) and right.value is None and lk in env:
             v = env[lk]
